@@ -566,6 +566,19 @@ class ExecutionState:
             # Raise the original exception unwrapped
             raise bg_error.source_exception from bg_error
 
+    def raise_if_orphaned(self, operation_id: str, parent_id: str | None) -> None:
+        """Raise OrphanedChildException if an enclosing context of the operation has completed.
+
+        The read-only counterpart of the check create_checkpoint() applies to every update: it
+        lets an operation that resumes without sending a checkpoint stop an orphaned branch too.
+        """
+        with self._parent_done_lock:
+            if operation_id in self._parent_done or self._has_completed_ancestor(
+                parent_id
+            ):
+                error_msg = "Parent context completed, child operation cannot continue"
+                raise OrphanedChildException(error_msg, operation_id=operation_id)
+
     def _has_completed_ancestor(self, parent_id: str | None) -> bool:
         """True if any enclosing context completed (or was orphaned) in this invocation.
 
